@@ -37,9 +37,13 @@ V5 == <<{<<100>>, <<101>>}, {<<65535>>}, {<<3, 4>>}>>
 T6 == [be |-> 1, areas |-> <<A(0, 2, 1, 1, 0, 1, 0), A(2, 1, 1, 1, 0, 1, 0)>>,
        regs |-> <<R(0, 0, 0, <<0>>, <<0>>, <<1>>), R(0, 1, 4, <<0>>, <<10>>, <<5>>)>>]
 V6 == <<{<<7>>}, {<<10>>, <<11>>}>>
-Tables == <<T1, T2, T3, T4, T5, T6>>
-Vals == <<V1, V2, V3, V4, V5, V6>>
-Word2 == <<10, 3, 16416, 5, 9, 999>>      \* one more word per table for the longer blocks
+(* T7 little-endian: a zero-sized area on the seam of two directly adjacent areas; a u32 ends at the seam, a u32 starts behind it *)
+T7 == [be |-> 0, areas |-> <<A(1, 2, 1, 1, 0, 1, 0), A(3, 0, 1, 1, 0, 1, 0), A(3, 2, 1, 1, 0, 1, 1)>>,
+       regs |-> <<R(1, 1, 0, <<0, 0>>, <<0, 0>>, <<1, 2>>), R(1, 3, 3, <<0, 0>>, <<0, 9>>, <<0, 3>>)>>]
+V7 == <<{<<5, 6>>}, {<<0, 9>>, <<0, 10>>}>>
+Tables == <<T1, T2, T3, T4, T5, T6, T7>>
+Vals == <<V1, V2, V3, V4, V5, V6, V7>>
+Word2 == <<10, 3, 16416, 5, 9, 999, 77>>      \* one more word per table for the longer blocks
 Which == CHOOSE i \in 1..Len(Tables) : Tables[i] = d
 WordsOf(i) == UNION {{v[k] : k \in 1..Len(v)} : v \in UNION {Vals[i][j] : j \in 1..Len(Vals[i])}} \cup {0, 65535}
 Window(t) == MaxOf(0, t.areas[1].base - 1)..(AEnd(t.areas[NA(t)]))
